@@ -1,5 +1,7 @@
 package obitax
 
+import "git.metabarcoding.org/obitools/obitools4/obitools4/pkg/obiseq"
+
 // C14: taxonomy queries on every rooted tree with N nodes.  The tree is a symbolic parent vector in canonical
 // topological numbering (parent[i] < i, node 0 is the root and its own parent: every rooted tree has such a
 // numbering); ranks are symbolic labels; taxid of node i is 10+i.  The oracle works on the index vector only.
@@ -149,6 +151,50 @@ func VerifC14_Alias(n int) {
 		vAssert(err == nil && nd != nil && nd.Taxid() == 10+b, "alias-resolves-to-its-target")
 	default:
 		vAssert(err != nil, "unknown-taxid-is-an-error")
+	}
+	vReach("end")
+}
+
+// the sequence predicates built on the taxonomy (obigrep --restrict-to-taxon / --ignore-taxon / --require-rank /
+// valid-taxid filter): a record carrying taxid q - a current taxid, a merged-id alias or an unknown id - is
+// selected exactly when the tree says so
+func VerifC14_SeqPredicates(n int) {
+	t := vBuild(n)
+	a := vInt(0, n-1)      // target of the alias 100
+	c := vInt(0, n-1)      // queried clade
+	viaAlias := vBool()    // the clade itself is given by its alias
+	qsel := vInt(0, n+1)   // record's taxid: node qsel, n = the alias, n+1 = unknown
+	r := vInt(0, 2)        // required rank
+	vAssert(t.tax.AddNewAlias(10+a, 100) == nil, "alias-registration-accepted")
+	q, x := 10+qsel, qsel // x: the node the record belongs to (-1 unknown)
+	if qsel == n {
+		q, x = 100, a
+	} else if qsel == n+1 {
+		q, x = 99, -1
+	}
+	seq := obiseq.NewBioSequence("s", []byte("acgt"), "")
+	seq.SetTaxid(q)
+	cladeId := 10 + c
+	if viaAlias {
+		vAssume(c == a)
+		cladeId = 100
+	}
+	in := t.tax.IsSubCladeOf(cladeId)(seq)
+	vAssert(in == (x >= 0 && t.anc(c, x)), "sequence-is-in-clade-iff-its-taxon-descends-from-it")
+	vAssert(t.tax.IsAValidTaxon()(seq) == (x >= 0), "sequence-taxid-is-valid-iff-known-or-alias")
+	// required rank: defined iff the taxon or one of its ancestors carries it
+	used := false
+	for i := 0; i < n; i++ {
+		used = used || t.rank[i] == r
+	}
+	if used {
+		want := false
+		if x >= 0 {
+			for i := 0; i < n; i++ {
+				want = want || (t.rank[i] == r && t.anc(i, x))
+			}
+		}
+		vAssert(t.tax.HasRequiredRank(vRanks[r])(seq) == want, "sequence-has-required-rank-iff-an-ancestor-carries-it")
 	}
 	vReach("end")
 }
